@@ -25,11 +25,12 @@ LEVEL_TEXT = ('static analysis: (D1) do_segmetrics interpreted with tagged stati
               'drops off-target bins before the adjustment when asked, and returns exactly the bins with adjusted p < alpha; a bin covered by two'
               ' overlapping segments is tested once, with its first residual; p_adjust_bh, interpreted on all orderings of four p-values with and'
               ' without ties (tied p-values share the largest rank), equals the Benjamini-Hochberg step-up formula min(1, min_{j>=i} n p_(j) / '
-              'j). (CLI) the `segmetrics / bintest` command line(s), through a model of argparse built from the declarations in commands.py and '
-              'the real _cmd_ body interpreted with readers, library step and writers stubbed: each of the twelve statistic flags lands in its '
-              "own list alone, alpha / bootstrap count / smoothing / --drop-low-coverage and bintest's -a / -t reach the statistics functions as "
-              'given. Does not decide numerical agreement of the individual statistics with reference implementations, nor that the CI lies '
-              "inside the bins' range.")
+              'j). The per-segment bins are looked up per chromosome (by_shared_chroms pairing, C07-D6 rule) and the estimators behind --bivar / '
+              '--mad / --iqr equal their formulas on literal vectors (C19-D6 rule). (CLI) the `segmetrics / bintest` command line(s), through a '
+              'model of argparse built from the declarations in commands.py and the real _cmd_ body interpreted with readers, library step and '
+              'writers stubbed: each of the twelve statistic flags lands in its own list alone, alpha / bootstrap count / smoothing / --drop-low-'
+              "coverage and bintest's -a / -t reach the statistics functions as given. Does not decide numerical agreement of the remaining "
+              "statistics with reference implementations, nor that the CI lies inside the bins' range.")
 TECHNIQUE = "abstract interpretation with tagged statistic summaries (argument provenance), exact rational terms in alpha, seed-dominance rule, exact small-scope evaluation of Benjamini-Hochberg"
 
 SM = "cnvlib.segmetrics"
@@ -544,6 +545,10 @@ def run(chk):
     # the estimators behind --bivar / --mad / --iqr, interpreted on literal vectors against their formulas (C19-D6 rule)
     from . import C19
     C19.d6(chk, prog, names=("biweight_location", "biweight_midvariance", "median_absolute_deviation", "interquartile_range"))
+    # ... and what they return for a segment of one bin / constant bins / no bins (0 for the spread statistics, through the on_array wrapper): C19-D5 rule
+    from .. import estyping
+    estyping.check_constant(chk, prog, {k: v for k, v in C19.LOCATION.items() if k in ("biweight_location", "modal_location")},
+                            {k: v for k, v in C19.SCALE.items() if k in ("biweight_midvariance", "median_absolute_deviation", "interquartile_range", "mean_squared_error")}, floor=6)
     chk.clause("CLI", "the `segmetrics` / `bintest` command lines: each statistic flag lands in its own list, alpha / bootstrap / smoothing / -t reach the statistics functions")
     from .. import cliglue
     cliglue.check_stats(chk, prog)
